@@ -340,8 +340,8 @@ func opClass(op string) string {
 
 func Run(r *vf.Run) {
 	bin := r.BuildBin("staticcheck", "honnef.co/go/tools/cmd/staticcheck", false)
-	nHist := r.Pick(3, 12)
-	nSteps := r.Pick(22, 300)
+	nHist := r.Pick(3, 6)
+	nSteps := r.Pick(22, 60)
 	base := &baselines{dir: filepath.Join(r.Scratch(), "baselines"), bin: bin, done: map[string]string{}}
 	os.MkdirAll(base.dir, 0o755)
 	results := make([]histResult, nHist)
@@ -409,6 +409,6 @@ func Run(r *vf.Run) {
 	r.Set("std_only_baseline_caches", ks)
 	r.Assume("a cache populated from an empty directory by linting a module that imports only fmt/errors/testing contains no entry influenced by the workspace; it is used as the cold cache on every step, a truly empty directory on every 8th step")
 	r.Assume("cache hits are observed through -debug.measure-analyzers (a package without measurement lines was served from the cache)")
-	r.Finish(steps, nontrivial, r.Pick(10, 200),
+	r.Finish(steps, nontrivial, r.Pick(10, 60),
 		"each step = one operation of a seeded history on the wsgen workspace (edit target/dependency so that deprecation, purity or nilness facts flip; edit/add/remove staticcheck.conf at two levels; -go, -tags, -tests, -checks, GOOS, go.mod version; touch; revert to an earlier state) followed by `staticcheck -f json` with the shared cache and with cold caches; stdout bytes and exit status must agree. non-trivial = steps in which the warm run really served a workspace package from the cache AND the report was non-empty AND differed from the previous step's")
 }
